@@ -10,3 +10,4 @@ for c in m['checks']:
     except Exception as e:
         bad+=1; print(c['property_id'],'EVIDENCE INVALID', str(e)[:200])
 print("evidence files valid" if not bad else f"{bad} invalid")
+sys.exit(1 if bad else 0)
